@@ -4,7 +4,7 @@
    Events (t in tCK of the sys clock: cycle * nphases):
      OFFER(p, t)  first cycle a new command is presented;  CMD(p, we, t) its acceptance;
      WDATA(p, t) / RDATA(p, t) completion of the oldest outstanding write / read of port p;  END(t). *)
-EXTENDS Integers, Sequences, FiniteSets
+EXTENDS Integers, Sequences, FiniteSets, R_AddrMap
 \* worst service of one command in its bank, direction budget, refresh block (lref = R_Refresh!LService)
 Service(cfg, rq) == rq["tRP"] + rq["tRCD"] + rq["tFAW"] + 8 * cfg.nphases
                     + (IF rq["tRAS"] > rq["tRCD"] + cfg.wl + cfg.blck + rq["tWR"] THEN rq["tRAS"] ELSE rq["tRCD"] + cfg.wl + cfg.blck + rq["tWR"])
@@ -13,18 +13,25 @@ Bdat(cfg, rq, lref) == 2 * (cfg.depth + 2) * (Service(cfg, rq) + cfg.nranks * cf
                        + 4 * lref + (cfg.read_latency + cfg.write_latency + 4) * cfg.nphases
 Bacc(cfg, rq, lref) == (cfg.nports + 1) * Bdat(cfg, rq, lref)
 
+BankOf(cfg, a) == LET d == Decode(cfg.geom, a) IN d.rank * cfg.nbanks + d.bank
 InitRsp(cfg) == [off |-> [p \in 0..cfg.nports - 1 |-> 0 - 1],          \* time of the pending offer, -1 = none
+                 offb |-> [p \in 0..cfg.nports - 1 |-> 0],              \* bank the pending offer addresses
+                 holders |-> [p \in 0..cfg.nports - 1 |-> {}],          \* other ports served by that bank while p waits
                  wq  |-> [p \in 0..cfg.nports - 1 |-> <<>>],           \* accept times of outstanding writes
                  rq  |-> [p \in 0..cfg.nports - 1 |-> <<>>],
                  worstAcc |-> 0, worstDat |-> 0]
 
 RspStep(cfg, bacc, bdat, s, e) ==
-  CASE e.c = "OFFER" -> [s |-> [s EXCEPT !.off[e.p] = e.t], bad |-> {}]
+  CASE e.c = "OFFER" -> [s |-> [s EXCEPT !.off[e.p] = e.t, !.offb[e.p] = BankOf(cfg, e.a), !.holders[e.p] = {}], bad |-> {}]
     [] e.c = "CMD" ->
         LET p == e.p  w == IF s.off[p] < 0 THEN 0 ELSE e.t - s.off[p]
-            s1 == [s EXCEPT !.off[p] = 0 - 1, !.worstAcc = IF w > s.worstAcc THEN w ELSE s.worstAcc]
+            b == BankOf(cfg, e.a)
+            s0 == [s EXCEPT !.holders = [q \in DOMAIN s.holders |-> IF q # p /\ s.off[q] >= 0 /\ s.offb[q] = b
+                                                                      THEN s.holders[q] \cup {p} ELSE s.holders[q]]]
+            s1 == [s0 EXCEPT !.off[p] = 0 - 1, !.worstAcc = IF w > s.worstAcc THEN w ELSE s.worstAcc]
             s2 == IF e.we THEN [s1 EXCEPT !.wq[p] = Append(s.wq[p], e.t)] ELSE [s1 EXCEPT !.rq[p] = Append(s.rq[p], e.t)]
-        IN [s |-> s2, bad |-> IF w > bacc THEN {<<"offered command accepted later than Bacc", p, s.off[p], e.t, bacc>>} ELSE {}]
+            \* how many OTHER ports the addressed bank served during the wait: exactly one = a single port held the bank
+        IN [s |-> s2, bad |-> IF w > bacc THEN {<<"offered command accepted later than Bacc", p, s.off[p], e.t, bacc, Cardinality(s.holders[p])>>} ELSE {}]
     [] e.c = "WDATA" ->
         LET p == e.p IN
         IF s.wq[p] = <<>> THEN [s |-> s, bad |-> {}]
@@ -39,7 +46,7 @@ RspStep(cfg, bacc, bdat, s, e) ==
               bad |-> IF w > bdat THEN {<<"read data later than Bdat", p, Head(s.rq[p]), e.t, bdat>>} ELSE {}]
     [] e.c = "END" ->
         [s |-> s,
-         bad |-> {<<"offered command never accepted", p, s.off[p], e.t, bacc>> : p \in {q \in DOMAIN s.off : s.off[q] >= 0 /\ e.t - s.off[q] > bacc}}
+         bad |-> {<<"offered command never accepted", p, s.off[p], e.t, bacc, Cardinality(s.holders[p])>> : p \in {q \in DOMAIN s.off : s.off[q] >= 0 /\ e.t - s.off[q] > bacc}}
                  \cup {<<"accepted write never got its data strobe", p, Head(s.wq[p]), e.t, bdat>> : p \in {q \in DOMAIN s.wq : s.wq[q] # <<>> /\ e.t - Head(s.wq[q]) > bdat}}
                  \cup {<<"accepted read never got its data", p, Head(s.rq[p]), e.t, bdat>> : p \in {q \in DOMAIN s.rq : s.rq[q] # <<>> /\ e.t - Head(s.rq[q]) > bdat}}]
     [] OTHER -> [s |-> s, bad |-> {}]
